@@ -711,13 +711,27 @@ func runRealCase(parent context.Context, kv map[string]string) []string {
 	ctx, cancel := context.WithCancel(parent)
 	defer cancel()
 	pf := grpcadapter.NewProxyForwarder(grpcadapter.ProxyForwarderOpts{})
-	start := time.Now()
+	// kind = RPC kind of the bridged method: (u)nary/(s)treaming request, (u)nary/(s)treaming response; default ss
+	// (what the proxy uses). For a unary REQUEST Forward itself must half-close the outgoing stream after the one
+	// request: the outgoing stream is always opened as a client stream, so gRPC never does it on its own.
+	method1 := bridgedesc.DummyMethod("verif.E2E", protoreflect.Name(name))
+	if k := kv["kind"]; len(k) == 2 {
+		method1 = &bridgedesc.Method{RPCName: method, Input: bridgedesc.ConcreteMessage[emptypb.Empty](), Output: bridgedesc.ConcreteMessage[emptypb.Empty](),
+			ClientStreaming: k[0] == 's', ServerStreaming: k[1] == 's'}
+	}
+	// a call over local pipes that has not ended after the prompt limit is cut off (and judged as not prompt)
+	var cut atomic.Bool
+	timer := time.AfterFunc(pl, func() { cut.Store(true); cancel() })
 	ferr := pf.Forward(ctx, grpcadapter.ForwardParams{
 		Target: &bridgedesc.Target{Name: "target"}, Service: &bridgedesc.Service{Name: "verif.E2E"},
-		Method:   bridgedesc.DummyMethod("verif.E2E", protoreflect.Name(name)),
+		Method:   method1,
 		Incoming: inc, Outgoing: e.tconn,
 	})
-	prompt := time.Since(start) <= pl
+	timer.Stop()
+	prompt := !cut.Load()
+	if !prompt {
+		hangsSeen.Add(1)
+	}
 	tdone := true
 	select {
 	case <-sc.started:
@@ -741,7 +755,6 @@ func runRealCase(parent context.Context, kv map[string]string) []string {
 		}
 		return "0"
 	}
-	_ = emptypb.Empty{}
 	return []string{
 		"tcalls=" + strconv.Itoa(sc.calls),
 		"treq=" + hexList(sc.got),
@@ -885,6 +898,34 @@ func GenE2E(r *rand.Rand, n int, faults bool, emit func(string)) {
 		mkx("real", "echo", q, [][]byte{{0x10, byte(code)}}, 0, code, msg, det, false)
 		if code%3 == 2 {
 			mkx("real", "idle", q, [][]byte{{0x10, byte(code)}, {}}, 1, code, msg, det, true)
+		}
+	}
+	// The target answers only AFTER the end of the request stream (it reads until io.EOF first — what grpc-java /
+	// grpc-core unary handlers, handlers reading until EOF and relaying proxies do), for every RPC kind: for a
+	// unary request it is Forward that has to half-close the outgoing stream, for a streaming one the client's
+	// half-close has to be relayed. If the half-close is not propagated the target never answers.
+	for _, kind := range []string{"uu", "us", "su", "ss"} {
+		for _, code := range []int{0, int(codes.FailedPrecondition)} {
+			q := [][]byte{{0x08, 0x01}}
+			if kind[0] == 's' {
+				q = [][]byte{{0x08, 0x01}, {}, {0x08, 0x03}}
+			}
+			resp := [][]byte{{0x10, 0x01}}
+			if kind[1] == 's' {
+				resp = [][]byte{{0x10, 0x01}, {0x10, 0x02}}
+			}
+			wresp := resp
+			if kind[1] == 'u' && code != 0 {
+				wresp = nil // a unary response is superseded by a non-OK status
+			}
+			msg := "after half-close"
+			wmsg := msg
+			if code != 0 {
+				wmsg += " (call 1)"
+			}
+			st := status.New(codes.Code(code), wmsg)
+			emit(fmt.Sprintf("real sc=echo kind=%s req=%s resp=%s tn=0 code=%d msg=%s det=x hdr=0 att=1 want.tcalls=1 want.treq=%s want.half=1 want.cresp=%s want.code=%d want.status=%s want.prompt=1 want.tdone=1 want.gor=0 want.hang=0",
+				kind, hexList(q), hexList(resp), code, common.HexS(msg), hexList(q), hexList(wresp), code, statusBytes(st)))
 		}
 	}
 	// the target dies in the middle of the call
